@@ -337,6 +337,31 @@ def check_list(out, top, info):
         extra = set(heads) - set(ids.values())
         if extra:
             out.violation('list-extra', "list() shows lines for unknown ids %s" % sorted(extra))
+    # "prints a complete list of jobs in topological order": the lines come in
+    # that order too - a job after what it requires, the members of a nested
+    # scheduler between its opening and closing lines
+    pos, closing = {}, {}
+    for k, ln in enumerate(lines):
+        toks = ln.split()
+        if len(toks) >= 2 and toks[1] == '--end--':
+            closing[toks[0]] = k
+        else:
+            pos.setdefault(toks[0], k)
+    for j in jobs:
+        if ids[j] not in pos:
+            continue
+        for r in j.required:
+            if ids[r] in pos:
+                out.count('list() line positions compared along requirements')
+                if pos[ids[r]] >= pos[ids[j]]:
+                    out.violation('list-line-order', "list() prints %s (id %s, line %d) before %s (id %s, line %d) "
+                                  "which it requires" % (j.name, ids[j], pos[ids[j]], r.name, ids[r], pos[ids[r]]))
+        parent = info['parent'][j]
+        if parent is not info['top'] and ids[parent] in pos:
+            lo, hi = pos[ids[parent]], closing.get(ids[parent])
+            if not (lo < pos[ids[j]] and (hi is None or pos[ids[j]] < hi)):
+                out.violation('list-line-nesting', "list() prints %s (id %s) at line %d, outside the lines %s..%s of its "
+                              "scheduler %s" % (j.name, ids[j], pos[ids[j]], lo, hi, parent.name))
     for j in jobs:
         for r in j.required:
             if int(ids[r]) >= int(ids[j]):
@@ -387,6 +412,43 @@ def c20_tree(prop, key, index, tier):
             for j in requirers:
                 j.required.add(a)
         out.count('trees exported once before being completed (history)')
+    if index % 5 == 2 and len(info['atoms']) >= 3:
+        # history: the complete tree is listed / queried / exported (reverse
+        # links and numbering get computed at every level), then some jobs -
+        # preferably exit jobs of their scheduler - leave for good; the export
+        # must describe the tree as it is now
+        buf = io.StringIO()
+        try:
+            with contextlib.redirect_stdout(buf):
+                if rng.random() < 0.6:
+                    top.list()
+                if rng.random() < 0.5:
+                    top.dot_format()
+                for s_ in [top] + info['nested']:
+                    if rng.random() < 0.5:
+                        list(s_.exit_jobs())
+                    if s_.jobs and rng.random() < 0.3:
+                        s_.successors_downstream(next(iter(s_.jobs)))
+        except BaseException as exc:                    # noqa
+            out.violation('dot-raised', "while querying the complete tree: %r" % (exc,))
+        for _ in range(rng.randint(1, 3)):
+            if len(info['atoms']) < 2:
+                break
+            exits = [a for a in info['atoms'] if not any(a in j.required for j in info['parent'][a].jobs)]
+            a = rng.choice(exits) if exits and rng.random() < 0.7 else rng.choice(info['atoms'])
+            parent = info['parent'][a]
+            if rng.random() < 0.5:
+                parent.bypass_and_remove(a)
+            else:
+                for j in parent.jobs:
+                    j.required.discard(a)
+                parent.remove(a)
+                a.required.clear()
+            info['atoms'].remove(a)
+            del info['parent'][a]
+            if not parent.jobs and parent is not top and parent not in info['empties']:
+                info['empties'].append(parent)
+        out.count('trees pruned after having been queried (history)')
     if info['empties']:
         out.count('trees with an empty nested scheduler')
     try:
